@@ -164,8 +164,13 @@ def plan_for(pid, tier, seed):
         if pid == "C18":
             # the collections' amortised growth on top of the arena's
             traces = traces + coll_corpus(tier, seed, ["growth"])
+        special = [replay.make_job(g) for g in gens]
+        if pid in ("C01", "C04"):
+            # unbounded integers: Apalache discharges the inductive invariant of the fast-path arithmetic
+            from . import apalache
+            special.append(apalache.run_fastpath)
         return dict(level="model_checking", mc=arena_mc(pid, tier), traces=traces,
-                    special=[replay.make_job(g) for g in gens],
+                    special=special,
                     assumptions=["TLC and the Json/IOUtils community modules",
                                  "the harness's recording global allocator (deterministic address map)",
                                  "small-scope hypothesis for the exhaustive model runs"])
